@@ -406,7 +406,7 @@ PROPS = {
                       "run through the executable monitor step11 (exactly one reply per request; Started/Throttled only for the oldest outstanding request right after the matching check-allowed "
                       "question and answer; AlreadyRunning only during a check or reboot wait; on-demand upgrade of the reboot question; a positive reboot answer is followed by the reboot) and compared "
                       "with the model.  Requests are injected after arbitrary events (attempts, reports, installs, progress, reboot waits, pings) and at every wait; handle drops and requests on a "
-                      "dead machine (must fail with StateMachineGone at once) are exercised by the harness.",
+                      "dead machine (must fail with StateMachineGone at once) are exercised by the harness.  Theorem C11_no_reply_without_request_and_never_two: the executable monitor step11a (every reply answers a request that was sent and is still unanswered, no request is answered twice, ids never reused) accepts every model trace; its invariant ties the outstanding set to the model's queue of requests in flight (Proofs/MonitorG.v).  It also runs on every implementation trace.",
         "level_note": "PARTIAL at the level of theorems: 'every request of every history is answered exactly once and truthfully' is a run-time monitor + trace equality, not yet a theorem about the "
                       "model (it needs an environment-aware invariant linking the monitor's outstanding set to the model's request queue).  The real select!'s random branch order and futures-channel "
                       "internals are not modelled; the racy point right after the check's result event is excluded from the deterministic scripts.",
